@@ -3,6 +3,7 @@ HARNESSES = {
     'NormalizeMD': dict(split={'verb': 16}),
     'Concat': dict(mode='X', validate=0),
     'SetPathData': dict(split={'verb': 18, 'form': 4}, quick=dict(params={'digits': 2}), thorough=dict(params={'digits': 4})),
+    'Retransform': dict(split={'path': 4, 'first': 2}),
     'ParsePathData': dict(split={'verb': 14, 'form': 3}, quick=dict(params={'digits': 4}), thorough=dict(params={'digits': 12})),
 }
 
@@ -11,6 +12,7 @@ BOUNDS = {
     'Concat': 'exact-real reading, arbitrary matrices',
     'SetPathData': '"M n n <verb> n.. [n.. implicit repeat] z" for each of the 18 verb letters, 4 number forms (d, -d, d.d, .d), the first `digits` digits arbitrary (quick 2, thorough 4)',
     'ParsePathData': '"M n n <verb> n.. [n.. repeat] [zM n n] z" for 14 verbs, 3 number forms, the first `digits` digits arbitrary (quick 4, thorough 12), symbolic outSize and x offset',
+    'Retransform': 'four fixed paths covering every verb class, arbitrary float32 scale/translate before and after; relational against a fresh Generator',
     'ParsePath': 'three paths with opacities 0.5, 0.25, 0.5 and one circle with symbolic position/radius',
 }
 OUTSIDE = 'that decimal text denotes the float it is parsed to (strconv.ParseFloat / fmt.Fscanf are uninterpreted functions of the token bytes); XML; skeletons other than the enumerated ones; multi-digit exponents, whitespace variants'
